@@ -498,10 +498,16 @@ class Tr:
         for st in ast.walk(fn):
             if isinstance(st, ast.Assign) and ast.unparse(st.targets[0]) == "self.keys_to_normalize":
                 v = st.value
+                body_ = v.body if isinstance(v, ast.IfExp) else None
+                if isinstance(body_, ast.Call) and ast.unparse(body_.func) in ("list", "tuple") and len(body_.args) == 1:
+                    body_ = body_.args[0]
+                if isinstance(body_, ast.Name):      # a module-level constant
+                    body_ = next((st2.value for st2 in self.tree.body if isinstance(st2, ast.Assign)
+                                  and ast.unparse(st2.targets[0]) == body_.id), None)
                 if (isinstance(v, ast.IfExp) and ast.unparse(v.test) == "keys_to_normalize is None"
-                        and isinstance(v.body, ast.List) and ast.unparse(v.orelse) == "keys_to_normalize"):
+                        and isinstance(body_, (ast.List, ast.Tuple)) and ast.unparse(v.orelse) == "keys_to_normalize"):
                     out = []
-                    for e in v.body.elts:
+                    for e in body_.elts:
                         s_ = self.string(e)
                         if s_ in self.NORM_IGNORED:
                             continue
@@ -1942,6 +1948,13 @@ def data_early_returns(tree: ast.Module) -> list[tuple[str, int]]:
                 names = {n.id for n in ast.walk(node.test) if isinstance(n, ast.Name)} - {"self", "all", "any", "len", "zip", "isinstance", "tuple"}
                 key_test = isinstance(node.test, ast.Compare) and any(isinstance(o, (ast.In, ast.NotIn)) for o in node.test.ops) \
                     and ast.unparse(node.test.comparators[-1]) in ("sample", "sample.keys()")
+                # `x = sample.get(key, None)` … `if x is None: return sample` is a presence test too
+                got = {t.id for a_ in ast.walk(fn) if isinstance(a_, ast.Assign) and isinstance(a_.value, ast.Call)
+                       and ast.unparse(a_.value.func) == "sample.get" for t in a_.targets if isinstance(t, ast.Name)}
+                if (isinstance(node.test, ast.Compare) and len(node.test.ops) == 1 and isinstance(node.test.ops[0], (ast.Is, ast.IsNot))
+                        and isinstance(node.test.left, ast.Name) and node.test.left.id in got
+                        and ast.unparse(node.test.comparators[0]) == "None"):
+                    key_test = True
                 if names and not key_test:
                     cnt += 1
         if cnt:
